@@ -512,8 +512,16 @@ def cli_case(ctx, bank, system, pos, sfmt='export', edit=False,
         (['punctuation_delete'] if edit else []) + \
         ([] if nohead else ['negra_mark_heads']) + ['binarize'] + \
         (['add_topnode'] if top else []) \
-        + ['--src-format', sfmt,
-         '--src-opts', 'quiet', '--src-enc', senc, '--dest-enc', denc]
+        + ['--src-format', sfmt, '--src-opts', 'quiet']
+    # utf-8 is the documented default of both encodings: named in half of
+    # the runs, left to the default in the others
+    named = rng is None or rng.random() < 0.5
+    if senc != 'utf-8' or named:
+        args += ['--src-enc', senc]
+    if denc != 'utf-8' or named:
+        args += ['--dest-enc', denc]
+    else:
+        ctx.stratum('cli: destination encoding left to the default')
     if edit:
         # a token-editing step first: the sentence written next to the
         # transitions is the one of the *edited* tree
